@@ -414,16 +414,23 @@ func (r *race) abort() {
 
 // ---- pure part: NewTimer(base) then Reset(arg) on a wheel that never ticks; the slot read at position 0 is the index
 
+var pureWheel struct {
+	step int64
+	n    int
+	w    *loom.Wheel
+}
+
 func runPure(step int64, n int, base int64, arg string) string {
-	w := loom.VerifNewWheelNoLoop(time.Duration(step), n)
-	slotIdx := map[unsafe.Pointer]int{}
-	for i := 0; i < n; i++ {
-		slotIdx[w.VerifSlotAddr(i)] = i
+	// the wheel never ticks and requests do not modify it: reuse it for consecutive lines with the same config
+	if pureWheel.w == nil || pureWheel.step != step || pureWheel.n != n {
+		pureWheel.step, pureWheel.n, pureWheel.w = step, n, loom.VerifNewWheelNoLoop(time.Duration(step), n)
 	}
+	w := pureWheel.w
+	slot0 := uintptr(w.VerifSlotAddr(0))
 	idx := -1
 	loom.VerifHook = func(site int, p unsafe.Pointer) {
 		if site == loom.VerifWheelLoadSlot {
-			idx = slotIdx[p]
+			idx = int((uintptr(p) - slot0) / unsafe.Sizeof(p))
 		}
 	}
 	defer func() { loom.VerifHook = nil }()
@@ -450,4 +457,60 @@ func runPure(step int64, n int, base int64, arg string) string {
 		}
 	})
 	return fmt.Sprintf("new=%s reset=%s", a, b)
+}
+
+// runHuge: sequential requests (no interleaving) on a wheel of any size: `pre` whole ticks, then every op followed by
+// ticks until the timer's channel is closed (at most n+2); reports the ticks complete at the call and the closing tick.
+func runHuge(n int, step int64, pre int, ops []op) string {
+	loom.VerifHook = nil
+	w := loom.VerifNewWheelNoLoop(time.Duration(step), n)
+	ticks := 0
+	for ; ticks < pre; ticks++ {
+		w.VerifTick()
+	}
+	var out []string
+	var timer *loom.WheelTimer
+	for i, o := range ops {
+		L := ticks
+		panicked := func() (p bool) {
+			defer func() {
+				if x := recover(); x != nil {
+					p = true
+				}
+			}()
+			switch o.kind {
+			case 'n':
+				timer = w.NewTimer(time.Duration(o.d))
+			case 'r':
+				if o.hasArg {
+					timer.Reset(time.Duration(o.d))
+				} else {
+					timer.Reset()
+				}
+			default:
+				panic("huge: unsupported op")
+			}
+			return false
+		}()
+		if panicked {
+			out = append(out, fmt.Sprintf("%d=P", i))
+			break
+		}
+		fire := 0
+		for k := 0; k < n+2 && fire == 0; k++ {
+			w.VerifTick()
+			ticks++
+			select {
+			case <-timer.C:
+				fire = ticks
+			default:
+			}
+		}
+		if fire == 0 {
+			out = append(out, fmt.Sprintf("%d=L%d,fnever", i, L))
+			break
+		}
+		out = append(out, fmt.Sprintf("%d=L%d,f%d", i, L, fire))
+	}
+	return strings.Join(out, " ")
 }
